@@ -329,3 +329,212 @@ Proof.
   inversion Hw; subst. apply IH; [|assumption].
   apply update_range_sorted; [exact Hd|]. destruct e; simpl in *; auto.
 Qed.
+
+(** ** get_at_latest in the three forms quoted by props/C06.v *)
+
+Lemma get_at_latest_exists {V} (h : hist V) (d : Z) : decreasing h ->
+  (exists k v, In (k, v) h /\ k <= d
+      /\ (forall k' v', In (k', v') h -> k' <= d -> k' <= k)
+      /\ get_at h d = v)
+  \/ ((forall k v, In (k, v) h -> d < k) /\ get_at h d = None).
+Proof.
+  intros Hdec. destruct (get_at_latest_lemma h d Hdec) as (Ha & Hb & Hc).
+  destruct Ha as [(k & v & HL)|Hnone].
+  - left. exists k, v. pose proof (Hb k v HL) as Hg. destruct HL as (H1 & H2 & H3). auto.
+  - right. split; [exact Hnone|auto].
+Qed.
+
+Lemma get_at_latest_any {V} (h : hist V) (d k : Z) (v : option V) : decreasing h ->
+  In (k, v) h -> k <= d -> (forall k' v', In (k', v') h -> k' <= d -> k' <= k) ->
+  get_at h d = v.
+Proof.
+  intros Hdec H1 H2 H3. destruct (get_at_latest_lemma h d Hdec) as (_ & Hb & _).
+  apply (Hb k v). unfold latest_entry. auto.
+Qed.
+
+(** holds for any list, sorted or not *)
+Lemma get_at_before_first {V} (h : hist V) (d : Z) :
+  (forall k v, In (k, v) h -> d < k) -> get_at h d = None.
+Proof.
+  induction h as [|[k v] t IH]; simpl; intros H; [reflexivity|].
+  destruct (k <=? d) eqn:E.
+  - specialize (H k v (or_introl eq_refl)). lia.
+  - apply IH. intros k' v' Hin. apply (H k' v'). now right.
+Qed.
+
+(** the answer, when defined, is the value of an entry on or before the date *)
+Lemma get_at_some_entry {V} (h : hist V) (d : Z) (x : V) :
+  get_at h d = Some x -> exists k, In (k, Some x) h /\ k <= d.
+Proof.
+  induction h as [|[k v] t IH]; simpl; [discriminate|].
+  destruct (k <=? d) eqn:E.
+  - intros ->. exists k. split; [now left|lia].
+  - intros H. destruct (IH H) as (k' & Hin & Hk). exists k'. split; [now right|exact Hk].
+Qed.
+
+(** ** The argument handling of update: which span a call denotes *)
+
+(** the span (start, optional inclusive stop) of a call, or the refusal *)
+Definition call_span (p : option period) (start stop : option Z) : res (Z * option Z) :=
+  match p with
+  | Some p =>
+      match start, stop with
+      | None, None =>
+          match p_unit p with
+          | Eternity => Err EValue
+          | _ => Ok (ord (p_start p), Some (ord (Period.stop p)))
+          end
+      | _, _ => Err EType
+      end
+  | None =>
+      match start with
+      | None => Err EValue
+      | Some s => Ok (s, stop)
+      end
+  end.
+
+Lemma update_call {V} (h : hist V) p start stop v :
+  update h p start stop v
+  = match call_span p start stop with
+    | Ok (s, e) => Ok (update_range h s e v)
+    | Err x => Err x
+    end.
+Proof.
+  unfold update, call_span. destruct p as [p|].
+  - destruct start, stop; try reflexivity. destruct (p_unit p); reflexivity.
+  - destruct start; reflexivity.
+Qed.
+
+Lemma update_period_spec {V} (h : hist V) (p : period) (v : option V) :
+  p_unit p <> Eternity ->
+  exists h', update h (Some p) None None v = Ok h'
+    /\ forall d, get_at h' d
+         = if (ord (p_start p) <=? d) && (d <=? ord (Period.stop p)) then v else get_at h d.
+Proof.
+  intros Hu. unfold update. destruct (p_unit p) eqn:E; try congruence;
+    (eexists; split; [reflexivity|]; intros d; apply update_range_closed_spec).
+Qed.
+
+Lemma update_start_stop_spec {V} (h : hist V) (s e : Z) (v : option V) :
+  exists h', update h None (Some s) (Some e) v = Ok h'
+    /\ forall d, get_at h' d = if (s <=? d) && (d <=? e) then v else get_at h d.
+Proof.
+  eexists; split; [reflexivity|]. intros d. apply update_range_closed_spec.
+Qed.
+
+Lemma update_start_only_spec {V} (h : hist V) (s : Z) (v : option V) :
+  exists h', update h None (Some s) None v = Ok h'
+    /\ forall d, get_at h' d = if s <=? d then v else get_at h d.
+Proof.
+  eexists; split; [reflexivity|]. intros d. apply update_range_open_spec.
+Qed.
+
+Lemma update_refused {V} (h : hist V) (v : option V) :
+  (forall p start stop, start <> None \/ stop <> None ->
+     update h (Some p) start stop v = Err EType)
+  /\ (forall stop, update h None None stop v = Err EValue)
+  /\ (forall p, p_unit p = Eternity -> update h (Some p) None None v = Err EValue).
+Proof.
+  repeat split.
+  - intros p start stop [H|H]; unfold update; destruct start, stop; try reflexivity; congruence.
+  - intros p Hp. unfold update. now rewrite Hp.
+Qed.
+
+Lemma update_sorted_call {V} (h h' : hist V) p start stop v s e :
+  decreasing h -> call_span p start stop = Ok (s, e) ->
+  match e with Some e => s <= e | None => True end ->
+  update h p start stop v = Ok h' -> decreasing h'.
+Proof.
+  intros Hd Hc Hw. rewrite update_call, Hc. intros H; inversion H; subst.
+  now apply update_range_sorted.
+Qed.
+
+(** ** Any sequence of calls of update (a refused call leaves the history as it was) *)
+
+Definition ucall (V : Type) := (option period * option Z * option Z * option V)%type.
+
+Definition apply_call {V} (h : hist V) (c : ucall V) : hist V :=
+  let '(p, s, e, v) := c in
+  match update h p s e v with Ok h' => h' | Err _ => h end.
+
+Definition override_call {V} (f : Z -> option V) (c : ucall V) : Z -> option V :=
+  let '(p, s, e, v) := c in
+  match call_span p s e with
+  | Ok (a, b) => fun d => if in_span a b d then v else f d
+  | Err _ => f
+  end.
+
+Lemma fold_override_call_ext {V} (cs : list (ucall V)) (f g : Z -> option V) :
+  (forall d, f d = g d) ->
+  forall d, fold_left override_call cs f d = fold_left override_call cs g d.
+Proof.
+  revert f g. induction cs as [|[[[p s] e] v] cs IH]; simpl; intros f g H d; [apply H|].
+  apply IH. intros d'. destruct (call_span p s e) as [[a b]|]; [|apply H].
+  now rewrite H.
+Qed.
+
+Lemma apply_calls_spec {V} (cs : list (ucall V)) (h : hist V) :
+  forall d, get_at (fold_left apply_call cs h) d = fold_left override_call cs (get_at h) d.
+Proof.
+  revert h. induction cs as [|[[[p s] e] v] cs IH]; simpl; intros h d; [reflexivity|].
+  rewrite IH. apply fold_override_call_ext. intros d'.
+  rewrite update_call. destruct (call_span p s e) as [[a b]|]; [|reflexivity].
+  apply update_range_spec.
+Qed.
+
+Definition call_well_formed {V} (c : ucall V) : Prop :=
+  let '(p, s, e, _) := c in
+  match call_span p s e with
+  | Ok (a, Some b) => a <= b
+  | _ => True
+  end.
+
+Lemma apply_calls_sorted {V} (cs : list (ucall V)) (h : hist V) :
+  decreasing h -> Forall call_well_formed cs -> decreasing (fold_left apply_call cs h).
+Proof.
+  revert h. induction cs as [|[[[p s] e] v] cs IH]; simpl; intros h Hd Hw; [exact Hd|].
+  inversion Hw as [|? ? Hc Hw']; subst. apply IH; [|exact Hw'].
+  rewrite update_call. simpl in Hc. destruct (call_span p s e) as [[a b]|]; [|exact Hd].
+  apply update_range_sorted; [exact Hd|]. destruct b; auto.
+Qed.
+
+(** ** The two sequence statements with the abstract side written out (props/C06.v) *)
+
+Lemma fold_fun_ext {A V} (F G : (Z -> option V) -> A -> Z -> option V) :
+  (forall f g u, (forall d, f d = g d) -> forall d, F f u d = G g u d) ->
+  forall us f g, (forall d, f d = g d) -> forall d, fold_left F us f d = fold_left G us g d.
+Proof.
+  intros HFG. induction us as [|u us IH]; simpl; intros f g H d; [apply H|].
+  apply IH. intros d'. now apply HFG.
+Qed.
+
+Lemma apply_updates_spec_explicit {V} (us : list (Z * option Z * option V)) (h : hist V) (d : Z) :
+  get_at (apply_updates h us) d
+  = fold_left (fun (f : Z -> option V) (u : Z * option Z * option V) =>
+                 let '(s, e, v) := u in
+                 fun d => if (s <=? d) && match e with Some e => d <=? e | None => true end
+                          then v else f d)
+              us (get_at h) d.
+Proof.
+  rewrite apply_updates_spec. apply fold_fun_ext; [|reflexivity].
+  intros f g [[s e] v] H d'. unfold override, in_span. now rewrite H.
+Qed.
+
+Lemma apply_calls_spec_explicit {V}
+    (cs : list (option period * option Z * option Z * option V)) (h : hist V) (d : Z) :
+  get_at (fold_left (fun h c => let '(p, s, e, v) := c in
+                       match update h p s e v with Ok h' => h' | Err _ => h end) cs h) d
+  = fold_left (fun (f : Z -> option V) c =>
+                 let '(p, s, e, v) := c in
+                 match call_span p s e with
+                 | Ok (a, b) =>
+                     fun d => if (a <=? d) && match b with Some b => d <=? b | None => true end
+                              then v else f d
+                 | Err _ => f
+                 end) cs (get_at h) d.
+Proof.
+  change (fold_left _ cs h) with (fold_left apply_call cs h).
+  rewrite apply_calls_spec. apply fold_fun_ext; [|reflexivity].
+  intros f g [[[p s] e] v] H d'. unfold override_call, in_span.
+  destruct (call_span p s e) as [[a b]|]; [now rewrite H|apply H].
+Qed.
